@@ -6,6 +6,9 @@
 package main
 
 import (
+	"time"
+	"syscall"
+	"os/signal"
 	"bytes"
 	"encoding/binary"
 	"encoding/json"
@@ -217,6 +220,25 @@ func main() {
 			die("neglen")
 		case "exitafter", "exit", "noreply":
 			die("noreply")
+		case "flood", "garbageflood":
+			// answers (a proper reply / garbage), then keeps writing to stdout without reading stdin again: it goes away only
+			// when nobody reads its stdout any more (EPIPE; SIGPIPE is taken so that the exit can be logged)
+			signal.Notify(make(chan os.Signal, 1), syscall.SIGPIPE)
+			if fault == "flood" {
+				writeOut(&s, frameOf(envelope(method, seqid, wire.Reply, reply)), false)
+			} else {
+				writeOut(&s, frameOf([]byte{0xde, 0xad, 0xbe, 0xef, 0x00, 0x01, 0x02}), false)
+			}
+			event("flooding", "")
+			deadline := time.Now().Add(100 * time.Second)
+			junk := make([]byte, 1<<20)
+			for time.Now().Before(deadline) {
+				if _, err := os.Stdout.Write(junk); err != nil {
+					die("epipe")
+				}
+				time.Sleep(20 * time.Millisecond)
+			}
+			die("linger-timeout")
 		default: // ok, wrongname, wrongversion, nofeature, dotdot, samepath, ...
 			writeOut(&s, frameOf(envelope(method, seqid, wire.Reply, reply)), false)
 		}
